@@ -4,7 +4,7 @@ from ..engine import AnchorMissing, loop_models
 from ..poly import poly, fact_nf, negate_cmp, GT0, GE0, EQ0, NE0
 from ..paths import loop_system, PathView, fn_paths, contradictory, loop_state_vars, entry_value
 from ..describe import describe
-from ..engines.schemas import resolve_iter, index_iter_base, range_parts, closure_return_term, item_source
+from ..engines.schemas import resolve_iter, index_iter_base, range_parts, closure_return_term, item_source, end_char
 from .. import lemmas
 from .common import configs_for, has_feature
 from .util import Rule, guarded, site_of_block
@@ -201,37 +201,61 @@ def _split_points(prog, rep):
     if len(pushes) != 1:
         raise AnchorMissing("split_points: expected one push in the hyphen loop")
     acc = s.mut_calls()[pushes[0]][0]
-    before = ("call", "Option::is_some", (("call", "Option::filter", None),))
+    RTO = lambda e: ("call", "Index::index", (W, ("adt", "std::ops::RangeTo", "RangeTo", (("end", e),))))
+    RFROM = lambda e: ("call", "Index::index", (W, ("adt", "std::ops::RangeFrom", "RangeFrom", (("start", e),))))
+
+    def side_of(c):
+        """which neighbour of the '-' the Option<char> c is"""
+        ec = end_char(prog, body, c)
+        if ec is None:
+            return None
+        if ec == ("back", RTO(idx)):
+            return "before"
+        if ec[0] == "front" and ec[1][0] == "call" and ec[1][1] == "Index::index" and ec[1][2][0] == W:
+            kind, st, en = range_parts(ec[1][2][1])
+            if kind == "from" and poly(st) == poly(idx) + poly(("int", 1)):
+                return "after"
+        return None
+
+    def alnum_verdict(atom, pol):
+        """(Option<char> term, truth of `it is Some(alphanumeric)`) established by a fact"""
+        if atom[0] == "b" and atom[1][0] == "call":
+            n, a = atom[1][1], atom[1][2]
+            if n == "Option::is_some" and a[0][0] == "call" and a[0][1] == "Option::filter" and _alnum_closure(prog, a[0][2][1]):
+                return (a[0][2][0], pol)
+            if n == "Option::is_some_and" and _alnum_closure(prog, a[1]):
+                return (a[0], pol)
+            if n == "Option::is_none_or" and _alnum_closure(prog, a[1]) and not pol:
+                return None
+            if n == "Option::map_or" and a[1] == ("bool", False) and _alnum_closure(prog, a[2]):
+                return (a[0], pol)
+            if n == "char::is_alphanumeric" and a[0][0] == "field" and a[0][2] == "0" and a[0][1][0] == "as" and a[0][1][2] == "Some":
+                return (a[0][1][1], pol)
+        if atom[0] == "variant":
+            if (atom[2] == "None" and pol) or (atom[2] == "Some" and not pol):
+                return (atom[1], False)
+        return None
     n_push = 0
     for tr in loop_system(prog, body, lm, [], [acc]):
         if tr.kind != "back":
             continue
         evs = [(n, a[1]) for (_b, n, a, _r) in tr.events]
-        conds = []
+        conds = set()
         for a, pol in tr.facts:
-            if a[0] == "b" and a[1][0] == "call" and a[1][1] == "Option::is_some":
-                flt = a[1][2][0]
-                side = None
-                if flt[0] == "call" and flt[1] == "Option::filter" and _alnum_closure(prog, flt[2][1]):
-                    c = flt[2][0]
-                    if c[0] == "callm" and c[1] == "DoubleEndedIterator::next_back":
-                        src2 = resolve_iter(prog, body, c[2][0], c[3][1])
-                        if src2 == ("call", "str::chars", (("call", "Index::index", (W, ("adt", "std::ops::RangeTo", "RangeTo", (("end", idx),)))),)):
-                            side = "before"
-                    elif c[0] == "callm" and c[1] == "Iterator::next":
-                        src2 = resolve_iter(prog, body, c[2][0], c[3][1])
-                        want = ("call", "str::chars", (("call", "Index::index", (W, ("adt", "std::ops::RangeFrom", "RangeFrom",
-                                                                                   (("start", ("bin", "Add", idx, ("int", 1))),)))),))
-                        if src2 == want:
-                            side = "after"
-                conds.append((side, pol))
+            v = alnum_verdict(a, pol)
+            if v is None:
+                continue
+            sd = side_of(v[0])
+            if sd is not None:
+                conds.add((sd, v[1]))
+        conds = sorted(conds, key=str)
         site = site_of_block(body, tr.path[-2])
         if evs:
             n_push += 1
-            r.check(evs == [("Vec::push", ("bin", "Add", idx, ("int", 1)))], "point", "the recorded split point is idx + 1",
+            r.check(len(evs) == 1 and evs[0][0] == "Vec::push" and poly(evs[0][1]) == poly(idx) + poly(("int", 1)), "point", "the recorded split point is idx + 1",
                     str([(n, D(a)) for n, a in evs]), "the hyphen splitter records %s, expected idx + 1 (directly after the '-')"
                     % [(n, D(a)) for n, a in evs], site=site)
-            r.check(sorted(conds, key=str) == [("after", True), ("before", True)], "alnum-both",
+            r.check(conds == [("after", True), ("before", True)], "alnum-both",
                     "a point is recorded iff the chars before and after the '-' are alphanumeric", str(conds),
                     "a split point is recorded under %s; expected: char before '-' alphanumeric and char after '-' alphanumeric"
                     % conds, site=site)
